@@ -321,6 +321,39 @@ func (x *Exec) loopModifiedRegions(fr *Frame, L *Loop) (map[string]Sort, bool) {
 				}
 				return
 			}
+			if fc := x.DB.For(fn); fc != nil && fc.HasSpec() && !fc.AssignsAll && len(fc.Assigns) > 0 {
+				// contract with an explicit frame: `*param` clauses modify objects of the parameter's pointee type
+				// (which may live on its own or inside a slice backing array)
+				okAll := true
+				for _, a := range fc.Assigns {
+					st, isStar := a.Expr.(*ast.StarExpr)
+					id, isId := (ast.Expr)(nil), false
+					if isStar {
+						id, isId = st.X.(*ast.Ident)
+					}
+					found := false
+					if isStar && isId {
+						for _, prm := range fn.Params {
+							if prm.Name() == id.(*ast.Ident).Name {
+								if pt, ok := prm.Type().Underlying().(*types.Pointer); ok {
+									addElem(pt.Elem())
+									r, s := x.elemRegion(pt.Elem())
+									regs[r] = s
+									found = true
+								}
+							}
+						}
+					}
+					if !found {
+						okAll = false
+					}
+				}
+				if okAll {
+					return
+				}
+				all = true
+				return
+			}
 			if len(fn.Blocks) == 0 || depth > 6 {
 				all = true
 				return
@@ -400,6 +433,7 @@ func (x *Exec) execLoopInvariant(fr *Frame, L *Loop, in []Edge, lc *LoopContract
 		for _, phi := range phis {
 			if phi.Comment != "" {
 				env.Vars[phi.Comment] = fr.Env[phi]
+				env.Vars[strings.ReplaceAll(phi.Comment, ".", "_")] = fr.Env[phi] // e.g. rangeint.iter -> rangeint_iter
 			}
 		}
 		return env
@@ -410,7 +444,7 @@ func (x *Exec) execLoopInvariant(fr *Frame, L *Loop, in []Edge, lc *LoopContract
 		if err != nil {
 			return nil, fmt.Errorf("%s: invariant %s: %v", label, inv.Label, err)
 		}
-		x.C.AddObligation(label+"#inv-init:"+inv.Label, "inv-init", fnName, st0.PC, t, inv.Text)
+		x.C.AddObligation(label+"#inv-init:"+inv.Label, "inv-init", fnName, x.absPC(st0.PC), t, inv.Text)
 	}
 	// 2. havoc
 	stH := st0.Clone()
@@ -436,7 +470,7 @@ func (x *Exec) execLoopInvariant(fr *Frame, L *Loop, in []Edge, lc *LoopContract
 		if err != nil {
 			return nil, fmt.Errorf("%s: invariant %s: %v", label, inv.Label, err)
 		}
-		x.C.Assume(Implies(stH.PC, t), "loop invariant "+inv.Label+" (induction hypothesis)")
+		x.C.Assume(Implies(x.absPC(stH.PC), t), "loop invariant "+inv.Label+" (induction hypothesis)")
 	}
 	if lc.Decreases != nil {
 		v, err := envH.intArg(lc.Decreases.Expr, 64)
@@ -478,7 +512,7 @@ func (x *Exec) execLoopInvariant(fr *Frame, L *Loop, in []Edge, lc *LoopContract
 			if err != nil {
 				return nil, fmt.Errorf("%s: invariant %s: %v", label, inv.Label, err)
 			}
-			x.C.AddObligation(label+"#inv-keep:"+inv.Label, "inv-keep", fnName, stB.PC, t, inv.Text)
+			x.C.AddObligation(label+"#inv-keep:"+inv.Label, "inv-keep", fnName, x.absPC(stB.PC), t, inv.Text)
 		}
 		if lc.Decreases != nil {
 			v, err := envB.intArg(lc.Decreases.Expr, 64)
@@ -486,7 +520,7 @@ func (x *Exec) execLoopInvariant(fr *Frame, L *Loop, in []Edge, lc *LoopContract
 				return nil, fmt.Errorf("%s: decreases: %v", label, err)
 			}
 			prop := And(bvCmp("bvsge", variant0, BVInt(0, 64)), bvCmp("bvslt", v, variant0))
-			x.C.AddObligation(label+"#dec", "dec", fnName, stB.PC, prop, lc.Decreases.Text)
+			x.C.AddObligation(label+"#dec", "dec", fnName, x.absPC(stB.PC), prop, lc.Decreases.Text)
 		}
 		for _, phi := range phis {
 			fr.Env[phi] = saved[phi]
